@@ -1,9 +1,9 @@
-import Unsized.Ptr
+import Unsized.PtrTree
 import Unsized.CodecLemmas
 /-!
 # Lemmas about pointer trees: induction principle, `getPtr` vs `extent`, what `check_pointers` guarantees
 -/
-namespace Unsized.Ptr
+namespace Unsized.PtrT
 open Common Unsized
 
 /-- Induction over a pointer tree together with its `Option` / `List` occurrences. -/
@@ -211,4 +211,4 @@ theorem checkPointers_false (r : Rng) (t : PtrTree) (cur a : Nat) (ha : a ∈ ad
     have := checkPointers_addrs r t cur _ this a ha
     omega
 
-end Unsized.Ptr
+end Unsized.PtrT
